@@ -147,6 +147,20 @@ def build_matrix():
                     tok = ("l" if form == "list" else "t") + ("T" if any(miss) else "F")
                     add(entry, ["range"], ["range"] if any(miss) else [], needs,
                         {"nd": 2, "bins": bp, "form": form, "missing": list(miss)}, flags=[True], shapes=[tok])
+    # size-dependent paths: big grids / many cells
+    for entry in ("histogramdd", "histogram2d"):
+        add(entry, ["range"], ["range"], True, {"nd": 2, "bins": "bigscalar", "form": "none", "missing": [True, True]},
+            flags=[True], shapes=["n"])
+        for form in ("list", "tuple"):
+            for miss in ((False, True), (False, False)):
+                add(entry, ["range"], ["range"] if any(miss) else [], any(miss),
+                    {"nd": 2, "bins": "bigscalar", "form": form, "missing": list(miss)}, flags=[True],
+                    shapes=[("l" if form == "list" else "t") + ("T" if any(miss) else "F")])
+    for omit in ([], ["range"]):
+        add("histogram", ["range"], omit, bool(omit), {"bins_t": "np.int64:32768"})
+    for t in ("mean", "nansum", "var", "median"):
+        for omit in ([], ["bounds"]):
+            add(t, ["bounds"], omit, bool(omit), {"wide": 512, "axis": 0})
     model_variants = {
         "GaussianNB": [{"fit": {"sample_weight": None}}, {"ctor": {"var_smoothing": "np.float64:1e-9"}},
                        {"ctor": {"priors": [0.3, 0.3, 0.4]}}, {"ctor": {"epsilon": "np.float64:1.0"}}],
@@ -254,6 +268,8 @@ def _make_call(c, X, y):
             if k in v:
                 kw[k] = v[k]
         kw.update(xkw)
+        if v.get("wide"):
+            X = np.tile(X, (1, v["wide"] // X.shape[1] + 1))[:, :v["wide"]]
         f = getattr(T, e)
         if e == "quantile":
             return lambda: f(X, [0.2, 0.8] if v.get("multi") else 0.3, accountant=acc(), **kw)
@@ -274,7 +290,8 @@ def _make_call(c, X, y):
         nd = v["nd"]
         edges = np.linspace(-1.0, 1.0, 4)
         one = {"c": 3, "e": edges, "n": np.int64(3)}
-        bins = 3 if v["bins"] == "scalar" else (np.int64(3) if v["bins"] == "nscalar" else [one[ch] for ch in v["bins"]])
+        bins = 3 if v["bins"] == "scalar" else (np.int64(3) if v["bins"] == "nscalar" else
+                                                (130 if v["bins"] == "bigscalar" else [one[ch] for ch in v["bins"]]))
         if v["form"] == "none":
             rng = None
         else:
@@ -420,7 +437,8 @@ def worker_main():
     flt = [f[0] for f in warnings.filters if f[2] is PrivacyLeakWarning]
     out = {"filter_actions": flt, "results": []}
     for c in req["cells"]:
-        for seed in req["seeds"]:
+        big = c["variant"].get("bins") == "bigscalar" or c["variant"].get("wide") or "32768" in str(c["variant"].get("bins_t"))
+        for seed in (req["seeds"][:1] if big else req["seeds"]):
             X, y = _dataset(seed + 7919 * c["id"], c)
             rec = {"id": c["id"], "seed": seed, "n": [None, None], "err": [None, None]}
             try:
